@@ -144,7 +144,9 @@ pub fn run(seed: u64, count: usize, outdir: &str) -> std::io::Result<i32> {
         }
         if il.is_empty() { il.push_str("no-image"); }
         // the case for the model (it renders small images only: the extracted interval arithmetic is slow)
-        let small = (c.w as usize) * (c.h as usize) <= 1600 && g.ctx.len() <= 120;
+        // the model's tile buffers are lists (quadratic fills): replay only runs whose (trimmed) root tile is small
+        let root_tile = { let m = c.w.max(c.h) as usize; let i = c.tiles.iter().position(|t| *t < m).unwrap_or(c.tiles.len()).saturating_sub(1); c.tiles[i] };
+        let small = (c.w as usize) * (c.h as usize) * g.ctx.len() <= 40_000 && (c.w as usize) * (c.h as usize) <= 1600 && root_tile <= 64;
         if small {
             let mut wl = format!("c06 {} {}", crate::wire::fmt_arena(&g.ctx, &[]), g.root.verif_index());
             for i in 0..4 { for j in 0..4 { write!(wl, " {}", canon_bits(m4[(i, j)])).unwrap(); } }
